@@ -721,10 +721,14 @@ def main(ctx):
         'tests/data/fistr: render_res(content) = file modulo trailing blanks and parse_res(file) = content',
         'section hypotheses: vparse (vprint v) = Some v; vprint v is a non-empty blank-free token that contains an '
         'E+dd / E-dd exponent, does not start with a letter or *, and has no letter T (float formatting %.16E / float())',
-        'translator translate/c02_cfg.py (ELEMENT_TYPES, header skip constants, single-file time-series wrapper)',
+        'translator translate/c02_cfg.py (ELEMENT_TYPES, header skip constants by symbolic execution of _split_series, '
+        'single-file time-series wrapper, the three patterns); a region it cannot read falls back to the registered '
+        "tree's value and a widened correspondence (reported under `tie`)",
         'the mesh part (msh written and read by femio) and glob(); harness glue (Coq literals, %.16E <-> float)',
-        'split_series is modelled with three spans instead of indices_match_clusters + index arithmetic '
-        '(equivalent on every input where the clusters exist); pinned by the correspondence',
+        'Regex.re_search as the meaning of re.search on the fragment the reader uses (anchor, classes, ? + *; \\d = ASCII '
+        'digits); validated per run against Python re on seeded strings',
+        'pandas / numpy primitives (Series slicing, str.contains, np.diff, np.concatenate, str.split) are represented by '
+        'their list counterparts in Model.v / Clusters.v',
     ]
     ctx.assumptions += ['result files of one directory list the same variables; rows may come in any id order but '
                         'the same order in every step (update_time_series stacks positionally)',
